@@ -32,9 +32,13 @@ Record rser := mkW {
   w_ref : int; w_mm : list int; w_hc : list int; w_omm : int; w_ohead : option int; w_ostruct : bool;
   w_last : rlast; w_pend : bool; w_snap : int;
   w_hcc : int;                 (* memSeries.headChunkCount *)
-  w_ss : rlast;                (* memSeries.sampleState() *)
-  w_clast : option rlast       (* last sample decoded from the newest in-order chunk (informational) *)
+  w_ss : rlast                 (* memSeries.sampleState() *)
 }.
+
+(* short form used by the harness for the common case: no out-of-order data, nothing from a
+   snapshot, headChunkCount = length of the list, sampleState() = the last-value fields *)
+Definition W (ref : int) (mm hc : list int) (last : rlast) (pend : bool) : rser :=
+  mkW ref mm hc 0%uint63 None false last pend 0%uint63 (Uint63.of_Z (Z.of_nat (length hc))) last.
 
 Definition to_ser (w : rser) : mser :=
   mkS (z (w_ref w)) (map z (w_mm w)) (map z (w_hc w)) (z (w_omm w))
@@ -81,8 +85,10 @@ Record robs := mkO {
   o_series : sint; o_stale : sint; o_hist : sint; o_buckets : sint; o_chunks : sint; o_active : sint;
   o_open : int;                (* appenders the harness holds open *)
   o_byhash : int;              (* series reachable through stripeSeries.hashes *)
-  o_walk : list rser
+  o_walk : option (list rser)  (* None: the walk is identical to the one after the previous step *)
 }.
+(* short form: all six numbers are non-negative *)
+Definition K (a b c d e f o h : int) (w : option (list rser)) : robs := mkO (P a) (P b) (P c) (P d) (P e) (P f) o h w.
 
 Record case := mkCase { c_id : Z; c_cap : int; c_steps : list (rop * robs) }.
 
@@ -121,32 +127,62 @@ Fixpoint sers_eqb (a b : list mser) : bool :=
   | _, _ => false
   end.
 
+(* the walk after a step: printed in full, or identical to the previous one, or (restart steps)
+   the structure that is already part of the operation *)
+Definition walk_of (prev : list rser) (o : rop) (ob : robs) : list rser :=
+  match o_walk ob with
+  | Some w => w
+  | None => match o with RRestart post _ => post | _ => prev end
+  end.
+
 (* the model keeps the series in creation order = increasing ref; the walk is sorted by ref *)
-Fixpoint agree_steps (cap : Z) (st : state) (l : list (rop * robs)) : bool :=
+Fixpoint agree_steps (cap : Z) (st : state) (prev : list rser) (l : list (rop * robs)) : bool :=
   match l with
   | [] => true
   | (o, ob) :: r =>
       let st' := step cap st (to_op o) in
-      ctrs_eqb (st_c st') (obs_ctrs ob) && sers_eqb (st_series st') (map to_ser (o_walk ob)) &&
-      agree_steps cap st' r
+      let w := walk_of prev o ob in
+      ctrs_eqb (st_c st') (obs_ctrs ob) && sers_eqb (st_series st') (map to_ser w) &&
+      agree_steps cap st' w r
   end.
 
-Definition agree (c : case) : bool := agree_steps (z (c_cap c)) state0 (c_steps c).
+Definition agree (c : case) : bool := agree_steps (z (c_cap c)) state0 [] (c_steps c).
 
 (* ---------------------------------------------------------------- holds: implementation only *)
-Definition walk_state (o : robs) : state :=
-  mkSt (map to_ser (o_walk o)) [] (repeat 0 (Z.to_nat (z (o_open o)))) ctrs0.
+Definition walk_state (o : robs) (w : list rser) : state :=
+  mkSt (map to_ser w) [] (repeat 0 (Z.to_nat (z (o_open o)))) ctrs0.
 
 Definition walk_ok (w : rser) : bool :=
   (z (w_hcc w) =? zlen (w_hc w)) && last_eqb (to_last (w_ss w)) (to_last (w_last w)).
 
-Definition holds_obs (o : robs) : bool :=
-  ctrs_eqb (obs_ctrs o) (recount (walk_state o)) &&
-  (z (o_byhash o) =? zlen (o_walk o)) &&
-  forallb walk_ok (o_walk o) &&
+Definition holds_obs (o : robs) (w : list rser) : bool :=
+  ctrs_eqb (obs_ctrs o) (recount (walk_state o w)) &&
+  (z (o_byhash o) =? zlen w) &&
+  forallb walk_ok w &&
   (if z (o_open o) =? 0 then sz (o_active o) =? 0 else true).
 
-Definition holds (c : case) : bool := forallb (fun p => holds_obs (snd p)) (c_steps c).
+Fixpoint holds_steps (prev : list rser) (l : list (rop * robs)) : bool :=
+  match l with
+  | [] => true
+  | (o, ob) :: r =>
+      let w := walk_of prev o ob in
+      holds_obs ob w && holds_steps w r
+  end.
+
+Definition holds (c : case) : bool := holds_steps [] (c_steps c).
 
 Definition mismatches (cs : list case) : list Z := map c_id (filter (fun c => negb (agree c)) cs).
 Definition failing_holds (cs : list case) : list Z := map c_id (filter (fun c => negb (holds c)) cs).
+
+(* debugging aid: index of the first step at which agree / holds fails *)
+Fixpoint agree_idx (cap : Z) (st : state) (prev : list rser) (l : list (rop * robs)) (i : nat) : option (nat * bool * bool) :=
+  match l with
+  | [] => None
+  | (o, ob) :: r =>
+      let st' := step cap st (to_op o) in
+      let w := walk_of prev o ob in
+      let a := ctrs_eqb (st_c st') (obs_ctrs ob) in
+      let b := sers_eqb (st_series st') (map to_ser w) in
+      if a && b then agree_idx cap st' w r (S i) else Some (i, a, b)
+  end.
+Definition first_mismatch (c : case) := (c_id c, agree_idx (z (c_cap c)) state0 [] (c_steps c) O).
